@@ -14,7 +14,7 @@ func init() {
 	register("C45", []string{".", "./internal/compact", "./internal/rangekey", "./internal/rangekeystack"}, runC45)
 	register("C08", []string{".", "./internal/rangekey", "./internal/rangekeystack", "./internal/compact", "./internal/keyspan"}, runC08)
 	propExplain["C17"] = "Decides guard clauses of C17 in the compaction iterator: sequence numbers are zeroed only on the true edge of isBottommostSnapshotStripe, which is IsBottommostDataLayer && stripe 0; inside Next, keys are skipped (skipInStripe / single-delete elision) only where a tombstone may be elided in the LAST snapshot stripe or where a range tombstone covers the key VISIBLY to the stripe's snapshot; inside a stripe a key is dropped only if covered visibly; range tombstones are elided only in stripe 0; every kind dispatch names all point kinds or fails closed; the snapshot list reaches the iterator (C03.G1). (S1) sibling agreement: singleDeleteNext and skipDueToSingleDeleteElision both handle a SETWITHDEL met by a SINGLEDEL in a different arm than SET/MERGE (as a delete). (U1) in the packages that implement key visibility, whole user keys are never compared with bytes.Equal/bytes.Compare (the configured comparer decides what the same user key is). Does not decide that the emitted key/value is the right one."
-	propExplain["C45"] = "Decides structural clauses of C45: internal scans pin their view before reading the visible sequence number (C01.O1 for newInternalIter), release it when construction fails, and every kind dispatch in the point-collapsing iterator and scanInternalImpl names all point / range-key kinds or fails closed. Does not decide replay equivalence."
+	propExplain["C45"] = "Decides structural clauses of C45: internal scans pin their view before reading the visible sequence number (C01.O1 for newInternalIter), release it when construction fails, and every kind dispatch in the point-collapsing iterator and scanInternalImpl names all point / range-key kinds or fails closed. (V1, shared with C03/C37) an eventually-file-only snapshot's ScanInternal / NewIter pass their own sequence number on every definition of the options that reaches the internal iterator (after the file-only transition too). Does not decide replay equivalence."
 	propExplain["C08"] = "Decides the dispatch clause of C08: every switch over the range-key kinds (coalescing, user-iterator shadowing, encode/decode, memtable routing) names RangeKeySet, RangeKeyUnset and RangeKeyDelete or fails closed, and memTable.apply routes DeleteRange to the range-deletion skiplist and the three range-key kinds to the range-key skiplist (DeleteRange never removes range keys); and the sort-discipline clause: every sort of []keyspan.Key whose comparator ignores the trailer (CoalesceInto's by-suffix sort, on which \"the newest key at a suffix wins\" rests) is a stable sort. Does not decide defragmentation or bounds (value-level)."
 }
 
@@ -167,6 +167,7 @@ func runC17(c *Ctx) {
 }
 
 func runC45(c *Ctx) {
+	efosReadsAtOwnSeqNum(c, "C45.V1")
 	n := surveyKindSwitches(c, "C45.T1", kindPkgs(), kindSwitchExceptions)
 	if n < 15 {
 		c.Unresolved("C45.T1", "fewer than 15 kind switches found")
